@@ -135,7 +135,7 @@ pub fn run(ctx: &mut Ctx) {
 }
 
 fn float_close<P: Px>(a: P::C, b: P::C, mag: f64) -> bool {
-    a.bits() == b.bits() || (P::kind() == CompKind::F32 && ((a.to_f64() - b.to_f64()).abs() <= 2.0 * ulp32_up(mag) || a.to_f64() == b.to_f64()))
+    a.bits() == b.bits() || (P::kind() == CompKind::F32 && ((a.to_f64() - b.to_f64()).abs() <= 2.0 * ulp32_up(mag) + 6.0 * 2f64.powi(-149) || a.to_f64() == b.to_f64()))
 }
 
 fn exec<P: Px>(s: &SCase, stats: &mut Stats, viols: &mut Vec<Viol>) {
